@@ -2,6 +2,8 @@ pub mod c04;
 pub mod c05;
 pub mod c07;
 pub mod c17;
+pub mod c18;
+pub mod c18b;
 pub mod c19;
 
 use crate::runner::Scenario;
@@ -12,9 +14,10 @@ pub fn by_id(id: &str) -> Option<Box<dyn Scenario>> {
         "C05" => Some(Box::new(c05::C05)),
         "C07" => Some(Box::new(c07::C07)),
         "C17" => Some(Box::new(c17::C17)),
+        "C18" => Some(Box::new(c18::C18)),
         "C19" => Some(Box::new(c19::C19)),
         _ => None,
     }
 }
 
-pub const ALL: &[&str] = &["C04", "C05", "C07", "C17", "C19"];
+pub const ALL: &[&str] = &["C04", "C05", "C07", "C17", "C18", "C19"];
